@@ -634,7 +634,7 @@ func (x *c03) dischargeSlice(f *ssa.Function, v *ssa.Slice) (string, string) {
 		// Gread: b[:len(b)+n], n returned by a full read into b[len(b):cap(b)]
 		if bo, ok := v.High.(*ssa.BinOp); ok && bo.Op == token.ADD {
 			if a, isLen := builtinOf(bo.X, "len"); isLen && a == v.X {
-				if readCountInto(bo.Y, v.X) {
+				if readCountInto(x.c, bo.Y, v.X) {
 					return "Gread: b[:len(b)+n] with n the count a read into b[len(b):cap(b)] returned (≤ cap(b)−len(b) by the reader contract)", ""
 				}
 			}
@@ -791,7 +791,7 @@ func (x *c03) allocatesAtLeastParam(g *ssa.Function) bool {
 	return okAll && n > 0
 }
 
-func readCountInto(n ssa.Value, b ssa.Value) bool {
+func readCountInto(xc *Ctx, n ssa.Value, b ssa.Value) bool {
 	seen := map[ssa.Value]bool{}
 	var rec func(v ssa.Value) bool
 	rec = func(v ssa.Value) bool {
@@ -822,6 +822,22 @@ func readCountInto(n ssa.Value, b ssa.Value) bool {
 				if bp := byteParam(g); bp != nil && readHelperCount(g, bp) {
 					if i := paramIndex(g, bp); i < len(call.Call.Args) {
 						buf = call.Call.Args[i]
+					}
+				}
+			} else if g == nil && !call.Call.IsInvoke() {
+				// a read function value (closure chosen by the caller): every function it can be is such a helper
+				if ts := xc.funcValueTargets(call.Call.Value, 0); len(ts) > 0 {
+					idx := -1
+					for _, t := range ts {
+						bp := byteParam(t)
+						if t.Blocks == nil || bp == nil || !readHelperCount(t, bp) || idx >= 0 && idx != paramIndex(t, bp) {
+							idx = -2
+							break
+						}
+						idx = paramIndex(t, bp)
+					}
+					if idx >= 0 && idx < len(call.Call.Args) {
+						buf = call.Call.Args[idx]
 					}
 				}
 			}
